@@ -1138,6 +1138,8 @@ def _val(v):
         from .fp import fp_value
 
         return fp_value(v)
+    if z3.is_bv_value(v):
+        return v.as_long()
     if z3.is_rational_value(v) or z3.is_int_value(v):
         f = frac(v)
         try:
